@@ -316,6 +316,17 @@ func TestC04_Chain(t *testing.T) {
 				b.assemble()
 			}
 			raw := b.bytes()
+			if rapid.IntRange(0, 2).Draw(t, "requestRespelled") == 0 {
+				// the same request in another spelling (insignificant white space, escapes, number forms); one byte slice serves
+				// every look-up below, as it does for a caller that walks a chain
+				raw = []byte(spell(t, b.Req, 1))
+			}
+			rawBefore := string(raw)
+			defer func(kind string) {
+				if string(raw) != rawBefore {
+					t.Fatalf("C04 the look-ups changed the bytes of the %s request they were given\n before %s\n after  %s", kind, rawBefore, raw)
+				}
+			}(kind)
 			if _, err := stack.Parser.Parse("did:sidetree", raw); err != nil {
 				t.Fatalf("C04 harness: chain %s refused: %v\n%s", kind, err, raw)
 			}
